@@ -642,6 +642,7 @@ class MQTTProtocol(MQTTBaseProtocol):
         Purges the persistent state in the client 
         '''
         #log.debug("{event}", event="Clean Persistent Session")
+        self._cancelAlarms()    # nothing may be re-sent for a request that is discarded
         for k in list(self.factory.windowSubscribe[self.addr]):
             request = self.factory.windowSubscribe[self.addr][k]
             del self.factory.windowSubscribe[self.addr][k]
